@@ -93,7 +93,7 @@ func runGc(ps []*Prog) ([]string, error) {
 		return nil, err
 	}
 	defer os.RemoveAll(dir)
-	os.WriteFile(filepath.Join(dir, "go.mod"), []byte("module gcvmexec\n\ngo 1.21\n"), 0o644)
+	os.WriteFile(filepath.Join(dir, "go.mod"), []byte("module gcvmexec\n\ngo 1.25.0\n"), 0o644)
 	os.WriteFile(filepath.Join(dir, "prelude.go"), []byte(gcPrelude), 0o644)
 	var m strings.Builder
 	m.WriteString("package main\n\nfunc main() {\n")
@@ -106,7 +106,9 @@ func runGc(ps []*Prog) ([]string, error) {
 	os.WriteFile(filepath.Join(dir, "main.go"), []byte(m.String()), 0o644)
 	cmd := exec.Command("go", "run", ".")
 	cmd.Dir = dir
-	cmd.Env = append(os.Environ(), "GOFLAGS=-mod=mod", "GOPROXY=off", "GOTOOLCHAIN=local", "GOWORK=off")
+	// the toolchain the repository asks for (go.mod: go 1.25.0, in the module cache); the older local
+	// go1.23.5 miscompiles `v1 -= (v0 - v1) / -3` with optimisations on (seen by this sweep)
+	cmd.Env = append(os.Environ(), "GOFLAGS=-mod=mod", "GOPROXY=off", "GOTOOLCHAIN=auto", "GOWORK=off")
 	outb, err := cmd.CombinedOutput()
 	if err != nil {
 		return nil, fmt.Errorf("go run: %v: %s", err, truncate(string(outb), 3000))
